@@ -29,6 +29,9 @@ def generate(rng, tier, idx):
     if idx % 2 == 0:
         K = gen_im.gen_c10_content(rng)
         ops = gen_im.build_ops(K, rng)
+        if ops[0]["op"] == "im_init" and rng.random() < 0.3:
+            # a manifest started under an explicitly older / newer header version: the arch rule does not depend on it
+            ops[0]["version"] = pick(rng, ["1.0", "1.0", "1.1", "0.3", "2.0"])
         body = ops[1 + len(K["imgs"]):]
         for o in bad_arch_image_adds(rng, K, rng.randint(1, 4)):
             body.insert(rng.randint(0, len(body)), o)
